@@ -38,6 +38,9 @@ def check(prog, run):
     run.rule("R6", "AV1 / VP9 configuration record fields are values of the parsed configuration")
     run.rule("R7", "hvcC profile/tier/level bytes are bit-for-bit the SPS bytes they summarise (all 256 values of the extracted expression)")
     hvcc_profile_bytes(prog, run, "R7")
+    run.rule("R8", "table-driven configuration fields agree with their specification tables (AAC samplingFrequencyIndex; av1C flag bits per configuration field)")
+    aac_frequency_index_rule(prog, run, "R8")
+    av1c_flags_rule(prog, run, "R8")
     u = prog.lib
     it = L.Interp(u)
     try:
@@ -474,3 +477,109 @@ def hvcc_profile_bytes(prog, run, rule):
             bad = next(i for i in range(256) if res[2][i] != i)
         run.check(ok, rule, "hvcC@%d %s == SPS byte %d" % (off, what, want_k), "identity on all 256 byte values",
                   "hvcC byte %d is not the SPS byte %d bit for bit (%s)" % (off, want_k, ("reads %s[%s]; e.g. SPS byte 0x%02x -> 0x%02x" % (res[0], res[1], bad, res[2][bad])) if (res and bad is not None) else ("reads %s" % (res[:2],) if res else "expression not a function of one SPS byte: %s" % (L.show(ex)[:120] if ex else fv,))))
+
+
+# ---- table-driven fields: the code's match table must be the specification's table -------------------------------------
+AAC_SFI = {96000: 0, 88200: 1, 64000: 2, 48000: 3, 44100: 4, 32000: 5, 24000: 6, 22050: 7, 16000: 8, 12000: 9, 11025: 10, 8000: 11, 7350: 12}   # ISO/IEC 14496-3 table 1.18
+
+
+def switch_table(b, param):
+    """{case value: constant assigned} for the first switch on parameter `param` whose every arm assigns a constant to one local"""
+    for blk in b["blocks"]:
+        t = blk["term"]
+        if t["k"] != "switch" or not t.get("arms"):
+            continue
+        d = sym.expr(b, t["discr"])
+        if not (d[0] == "arg" and d[1] == param):
+            continue
+        out, target = {}, None
+        ok = True
+        for v, tgt in t["arms"] + [["default", t["otherwise"]]]:
+            asg = [st for st in b["blocks"][tgt]["stmts"] if st["k"] == "assign"]
+            if len(asg) != 1:
+                ok = False
+                break
+            e = sym.expr_rv(b, asg[0]["rv"])
+            if e[0] != "const" or (target not in (None, asg[0]["place"]["l"])):
+                ok = False
+                break
+            target = asg[0]["place"]["l"]
+            out[v if v == "default" else int(v)] = e[1]
+        if ok:
+            return out
+    return None
+
+
+def aac_frequency_index_rule(prog, run, rule):
+    u = prog.lib
+    fns = [f for f in u.bodies if mir.norm(f).split("::")[-1] == "build_audio_specific_config" and not u.bodies[f]["in_test_cfg"]]
+    if len(fns) != 1:
+        run.bad(rule, "anchor AudioSpecificConfig", "builder not found")
+        return
+    tab = switch_table(u.bodies[fns[0]], 1)
+    if tab is None:
+        run.bad(rule, "AAC samplingFrequencyIndex table", "the sample-rate -> samplingFrequencyIndex mapping is not a match table of constants any more: cannot compare it with ISO/IEC 14496-3 table 1.18 (fail closed)")
+        return
+    got = {k: v for k, v in tab.items() if k != "default"}
+    diff = sorted(k for k in set(got) | set(AAC_SFI) if got.get(k) != AAC_SFI.get(k))
+    run.check(not diff, rule, "AAC samplingFrequencyIndex table", "13 standard rates map to the indices of ISO/IEC 14496-3 table 1.18",
+              "samplingFrequencyIndex differs from ISO/IEC 14496-3 table 1.18 for %s" % ", ".join("%s Hz: code %s, spec %s" % (k, got.get(k), AAC_SFI.get(k)) for k in diff), mir.loc_of(u.bodies[fns[0]]))
+
+
+AV1C_BITS = [("high_bitdepth", 0x40), ("twelve_bit", 0x20), ("monochrome", 0x10), ("chroma_subsampling_x", 0x08), ("chroma_subsampling_y", 0x04)]   # AV1-ISOBMFF 2.3.3
+
+
+def av1c_flags_rule(prog, run, rule):
+    """av1C byte 2: high_bitdepth(1) twelve_bit(1) monochrome(1) chroma_subsampling_x(1) chroma_subsampling_y(1) chroma_sample_position(2)
+    and byte 1: seq_profile(3) seq_level_idx_0(5): evaluated from the extracted builder expression per configuration field"""
+    u = prog.lib
+    it = L.Interp(u)
+    name = "muxer::mp4::build_av1c_box"
+    if name not in u.hir:
+        run.bad(rule, "av1C anchor", "av1C builder not found")
+        return
+    pname = u.hir[name]["params"][0]["pat"].get("name", "av1_config")
+    try:
+        segs = it.production(name, [("param", pname)])
+    except L.Unanalysable as e:
+        run.bad(rule, "av1C unanalysable", str(e))
+        return
+    body = segs[0][2] if segs and segs[0][0] == "box" else []
+    view, _ = B.byte_view(body)
+
+    def ev(x, env):
+        h = x[0]
+        if h == "lit":
+            return int(x[1])
+        if h == "bool":
+            return int(bool(x[1]))
+        if h == "field" and x[1] == ("param", pname):
+            return env.get(x[2], 0)
+        if h == "bin":
+            return _OPS[x[1]](ev(x[2], env), ev(x[3], env))
+        if h == "if":
+            return ev(x[2], env) if ev(x[1], env) else ev(x[3], env)
+        if h == "cast":
+            return ev(x[2], env)
+        if h == "call" and x[1].split("::")[-1] in ("from", "into") and len(x[2]) == 1:
+            return ev(x[2][0], env)
+        raise ValueError("node %s" % (h,))
+    for off, fields in ((2, AV1C_BITS + [("chroma_sample_position", None)]), (1, [("seq_profile", None), ("seq_level_idx", None)])):
+        fv = B.field_value(view, off, 1)
+        ex = fv[1][1] if fv[0] == "expr" else None
+        if ex is None:
+            run.bad(rule, "av1C@%d" % off, "byte %d of av1C is not a computed value: %s" % (off, fv))
+            continue
+        try:
+            if off == 2:
+                for fname, mask in AV1C_BITS:
+                    got = ev(ex, {fname: 1}) & 0xFF
+                    run.check(got == mask, rule, "av1C@2 %s" % fname, "sets exactly bit 0x%02x" % mask, "configuration field `%s` alone sets av1C byte 2 to 0x%02x, the specification puts it at 0x%02x" % (fname, got, mask))
+                got = [ev(ex, {"chroma_sample_position": v}) & 0xFF for v in range(4)]
+                run.check(got == [0, 1, 2, 3], rule, "av1C@2 chroma_sample_position", "low two bits", "chroma_sample_position 0..3 gives %s, expected [0, 1, 2, 3]" % got)
+            else:
+                got = [(p, l, ev(ex, {"seq_profile": p, "seq_level_idx": l}) & 0xFF) for p in range(8) for l in range(32)]
+                bad = [(p, l, g) for (p, l, g) in got if g != ((p << 5) | l)]
+                run.check(not bad, rule, "av1C@1 seq_profile/seq_level_idx_0", "(profile << 5) | level for all 256 combinations", "av1C byte 1 for profile %s level %s is 0x%02x" % bad[0] if bad else "")
+        except (ValueError, KeyError) as e:
+            run.bad(rule, "av1C@%d evaluable" % off, "cannot evaluate the extracted expression: %s" % e)
